@@ -78,6 +78,12 @@ func (g *goGen) expr(e SExpr, positive bool) string {
 		if v, ok := g.lookup(x.Name); ok {
 			return v
 		}
+		if obj := g.fv.pkg.Scope().Lookup(x.Name); obj != nil {
+			switch obj.(type) {
+			case *types.Const, *types.Var, *types.Func:
+				return x.Name // a package-level name of the package under test (the replay is an in-package test)
+			}
+		}
 		return g.fail("name %s", x.Name)
 	case *SUn:
 		if x.Op == "!" {
